@@ -23,6 +23,17 @@ def _load_corpus(prop):
     return out
 
 
+def _finding_of(oracle_msg, open_findings):
+    """an oracle message that starts with [class:<name>] belongs to the listed finding of that class"""
+    if not oracle_msg or not oracle_msg.startswith("[class:"):
+        return None
+    cls = oracle_msg[len("[class:"):oracle_msg.index("]")]
+    for f in open_findings:
+        if f.get("class") == cls:
+            return f["id"]
+    return None
+
+
 def _shrink(mod, prop, case, rounds=12):
     """greedy: replace the case by the first smaller candidate on which the oracle still fails"""
     if not hasattr(mod, "shrink_candidates"):
@@ -50,6 +61,10 @@ def run_check(prop, tier, seed):
     b = core.build(mod.PROP_FILES, thorough=(tier == "thorough"))
     rng = random.Random(seed)
     corpus = _load_corpus(prop)
+    # witnesses of repaired defects stay in the corpus forever: they must pass
+    for f in core.known_findings(prop):
+        if f.get("status") == "fixed":
+            corpus += [dict(w["input"], kind="fixed-finding") for w in f.get("witnesses", [])]
     cases = corpus + mod.gen(rng, tier)
     for i, c in enumerate(cases):
         c.setdefault("origin", "corpus" if i < len(corpus) else "generated")
@@ -75,7 +90,7 @@ def run_check(prop, tier, seed):
         hist[label] += 1
         if not hasattr(mod, "nontrivial") or mod.nontrivial(c, mo, obs):
             distinct.add(json.dumps(mod.key(c) if hasattr(mod, "key") else c, sort_keys=True))
-        kf = mod.finding_of(c, open_findings) if hasattr(mod, "finding_of") else None
+        kf = _finding_of(io.get("oracle"), open_findings)
         if io.get("oracle"):
             if kf:
                 known_hits[kf] += 1
